@@ -33,7 +33,58 @@ def owner_of(P, f):
     return f
 
 
+def floor_at_least_memory_min(ctx):
+    """'The limit never goes more than a page below the floor = unreclaimable usage + limit_min_bytes, and the floor is at least
+    memory.min': the value getLimitMinBytes returns has been raised to the cgroup's OWN memory.min (std::max with memory_min(), on
+    every value-returning path).  The effective protection (memory_protection(): scaled down below an over-committed parent, capped by
+    the usage) is a different quantity and can be smaller than memory.min."""
+    P = ctx.prog
+    f = ctx.fn1("Oomd::Senpai::getLimitMinBytes")
+    X = Expander(P, f)
+    fl = None
+    ok_sites = []
+    MINOP = re.compile(r"std::max\((.*)\)$")
+
+    def raises_to_min(t):
+        m = MINOP.search(t)
+        return m is not None and re.search(r"\*?param:\w+\.memory_min\((nullptr)?\)(\.value\(\))?", m.group(1)) is not None
+    rets = [(r, leaf) for r, leaf in return_leaves(f) if X(leaf) not in ("std::nullopt", "{}")]
+    if not rets:
+        ctx.broken("floor-at-least-memory-min", "anchor", f.loc(), "getLimitMinBytes has no value return")
+        return
+    bad = []
+    for r, leaf in rets:
+        t = X(leaf)
+        if raises_to_min(t):
+            continue
+        m = re.match(r"^var:(\w+)$", t)
+        if m:
+            ws = local_writes(f, m.group(1), must=False)
+            is_min = lambda t_: re.fullmatch(r"\*?param:\w+\.memory_min\((nullptr)?\)(\.value\(\))?", t_) is not None
+            ev = {w: [("set", "raised")] for w in ws if raises_to_min(X(write_rhs(f, w))) or is_min(X(write_rhs(f, w)))}
+            # the conditional spelling of max: `if (x < min) x = min;` - the path that skips the assignment has seen x >= min
+            mn = locals_receiving(f, r"memory_min\(")
+            V = re.escape(m.group(1))
+            MN = "(?:%s)" % "|".join(r"\*%s|%s\.value\(\)" % (re.escape(x_), re.escape(x_)) for x_ in mn) if mn else "(?!x)x"
+            LT = re.compile(r"^\((%s < %s|%s > %s)\)$" % (V, MN, MN, V))
+            GE = re.compile(r"^\((%s >= %s|%s <= %s)\)$" % (V, MN, MN, V))
+            tok = lambda k, p: ["raised"] if isinstance(k, str) and ((LT.match(k) and p is False) or (GE.match(k) and p is True)) else None
+            # a later plain overwrite would undo it
+            for w in ws:
+                if w not in ev:
+                    ev[w] = [("clear", "raised")]
+            flw = Flow(P, f, events=ev, cg=ctx.cg, edge_tokens=tok)
+            if ev and flw.must(r, "raised"):
+                continue
+        bad.append((r, t))
+    ctx.check(not bad, "floor-at-least-memory-min", "value-shape + must_precede", f.loc(bad[0][0]) if bad else f.loc(),
+              "the floor handed to the limit logic is max(limit_min_bytes + unreclaimable, memory.min)",
+              "getLimitMinBytes can return '%s' without having raised it to the cgroup's own memory.min (std::max(.., memory_min())): the limit - and the "
+              "size of an immediate-backoff reclaim - can go below memory.min" % (bad[0][1][:80] if bad else ""))
+
+
 def run(ctx):
+    floor_at_least_memory_min(ctx)
     from .C15 import every_context_refreshed
     every_context_refreshed(ctx)
     # locals / parameters the rules below refer to by name (a rename makes the analysis 'broken', never a violation)
